@@ -213,6 +213,10 @@ class SimWorld:
             exc = SimAbort(f"injected abort at node {self.cur_node}")
             self.last_injected = exc
             raise exc
+        if kind == "sysexit":
+            exc = SystemExit(f"injected sys.exit at node {self.cur_node}")      # a processor calling sys.exit("...")
+            self.last_injected = exc
+            raise exc
         if kind == "kbint":
             exc = KeyboardInterrupt()
             self.last_injected = exc
